@@ -65,6 +65,7 @@ fn end_mmap(
     len: usize,
     tmpfile: &mut NamedTempFile,
 ) -> std::io::Result<()> {
+    #[cfg(not(windows))]
     if let Some(map) = mmap.as_ref() {
         // The mapping is given up only once every step has worked: when one of
         // them fails the writer stays as it was, so carrying on with it (a
@@ -73,6 +74,15 @@ fn end_mmap(
         tmpfile.seek(std::io::SeekFrom::Start(len as u64))?;
         tmpfile.as_file().set_len(len as u64)?;
         *mmap = None;
+    }
+    // Windows refuses to truncate a file that still has a mapped view, so
+    // there the view has to go before the file can be cut.
+    #[cfg(windows)]
+    if let Some(map) = mmap.take() {
+        map.flush()?;
+        drop(map);
+        tmpfile.as_file().set_len(len as u64)?;
+        tmpfile.seek(std::io::SeekFrom::Start(len as u64))?;
     }
     Ok(())
 }
